@@ -180,6 +180,7 @@ let case_retry k args lines =
        let ncb = ref 0 in
        let nremoved = ref 0 in
        let bad_pending = ref false and nbad = ref 0 in
+       let last_t_us = ref None and excuses = ref 0 in   (* for attempt-cut-short *)
        let seen_end = ref false in   (* callbacks after END come from ares_destroy *)
        let ntx = ref 0 in
        let base = match metrics_server_timeout timeout maxt { tv_sec = zi 1000; tv_usec = Z0 } metrics_init with Ok b -> b | _ -> Z0 in
@@ -235,8 +236,19 @@ let case_retry k args lines =
        List.iter (fun l ->
          (match words l with "CB" :: _ -> () | _ -> drain ());
          match words l with
-         | "T" :: _sec :: _usec :: srv :: tcp :: _qid :: opt :: cookie :: _ ->
+         | "T" :: sec :: usec :: srv :: tcp :: _qid :: opt :: cookie :: _ ->
            incr ntx;
+           (* C06 "each attempt waits no less than the base timeout", on the log alone: a new
+              transmission that no reply / connection error / server-list change accounts for can
+              only come from the timeout of the previous attempt, which started at the previous T *)
+           let t_us = Z.add (Z.mul (zd sec) (zi 1000000)) (zd usec) in
+           (match !last_t_us with
+            | Some t0 ->
+              if !excuses > 0 then decr excuses
+              else if zlt (Z.sub t_us t0) (Z.mul base (zi 1000)) then
+                fail k "attempt-cut-short" "attempt re-sent %s us after it was sent, without a reply or a connection error (base timeout %s ms)" (dz (Z.sub t_us t0)) (dz base)
+            | None -> ());
+           last_t_us := Some t_us;
            (* a transmission = successful write inside ares_send_query *)
            if (!q).q_queued <> O && not (!q).q_sending then flush_all ();
            if !bad_pending then begin
@@ -288,23 +300,25 @@ let case_retry k args lines =
            Hashtbl.replace feats "early" ();
            if dtx <> "0" || cb <> "0" then fail k "fired-before-deadline" "1us before the hint expired: transmissions=%s callbacks=%s" dtx cb
          | ["E"; "timeout"] ->
-           last_tx := None; bad_pending := false;
+           last_tx := None; bad_pending := false; excuses := 0;
            push_in (ITimeout !s_now)
          | ["E"; "reply"; kind; copies; tcp] ->
            last_tx := None;
            let n = max 1 (int_of_string copies) in
+           excuses := n;
            if n > 1 then Hashtbl.replace feats "dup" ();
            handle_batch (List.init n (fun _ -> kind)) tcp
          | ["E"; "batch"; kinds; tcp] ->
            last_tx := None;
+           excuses := String.length kinds;
            Hashtbl.replace feats "batch" ();
            handle_batch (List.init (String.length kinds) (fun i -> String.make 1 kinds.[i])) tcp
          | ["E"; "connerr"; tcp] ->
-           last_tx := None;
+           last_tx := None; excuses := 1;
            Hashtbl.replace feats "connerr" ();
            if tcp <> "-1" && (!q).q_conn <> None then push_in (IConnClosed (!s_now, aRES_ECONNREFUSED))
          | ["E"; "servers"; n] ->
-           last_tx := None;
+           last_tx := None; excuses := 1;
            Hashtbl.replace feats "servers" ();
            let n' = zd n in
            let removed_current = (!q).q_conn <> None && !last_srv >= int_of_z n' in
@@ -314,7 +328,7 @@ let case_retry k args lines =
            (* the list becomes the single server idx: the new one is added first, then every other
               server is removed; generated only from a single-server list, so the count is 1 when
               the query's server goes away *)
-           last_tx := None;
+           last_tx := None; excuses := 1;
            Hashtbl.replace feats "flap" ();
            let removed_current = (!q).q_conn <> None && (!q).q_ended = None && !last_srv <> int_of_string idx in
            s_now := zi 1;
@@ -325,8 +339,15 @@ let case_retry k args lines =
            end
          | ["E"; "openfail"; _] | ["E"; "sendfail"; _] -> ()
          | "END" :: _ -> seen_end := true
-         | "CB" :: st :: _ when not !seen_end && not (List.mem "CLOCKRANGE" lines && zd st = zi 16) ->
+         | "CB" :: st :: rest when not !seen_end && not (List.mem "CLOCKRANGE" lines && zd st = zi 16) ->
            incr ncb;
+           (match !last_t_us, rest with
+            | Some t0, _ :: sec :: usec :: _ ->
+              let t_us = Z.add (Z.mul (zd sec) (zi 1000000)) (zd usec) in
+              if !excuses > 0 then decr excuses
+              else if zlt (Z.sub t_us t0) (Z.mul base (zi 1000)) then
+                fail k "attempt-cut-short" "query failed %s us after its last transmission, without a reply or a connection error (base timeout %s ms)" (dz (Z.sub t_us t0)) (dz base)
+            | _ -> ());
            if (!q).q_queued <> O && not (!q).q_sending && (!q).q_ended = None then flush_all ();
            expect_out (ODone (zd st));
            drain ()
